@@ -109,4 +109,13 @@ theorem C15_one_marker_per_procedure (P : X.Program) (st : Xcmp.Stages) (h : Xcm
   Xcmp.stages_marks P st h
 
 
+/-- **(a) on the compiler side, lowering of bodies.**  The code of a procedure body (`Xcmp.genStmt_pc`:
+    plain) lowers to a directive list whose labels are all plain: no FUNC / PROC label ever comes out
+    of a body, so every FUNC / PROC label of the program stems from a PROLOGUE marker. -/
+theorem C15_bodies_lower_to_plain_labels (out : Xcmp.CGOut) (ctx : Xcmp.Ctx) (st : Xcmp.AStmt) (gs gs' : Xcmp.GS)
+    (code : Xcmp.Code) (h : Xcmp.genStmt ctx st gs = .ok (code, gs')) :
+    ∀ l ∈ Xcmp.labelsOf (Xcmp.lowerCode out code), l.1 = LabelKind.plain :=
+  Xcmp.lowerCode_plain_labels out code ((Xcmp.genStmt_pc ctx st).h gs code gs' h)
+
+
 end Hex.Properties.C15
